@@ -75,6 +75,25 @@ func (x *Exec) libModel(fr *Frame, st *State, ins ssa.Instruction, callee *ssa.F
 		x.lib(full)
 		st.reach = tFalse
 		return true
+	case "bytes.NewBuffer", "bytes.NewBufferString":
+		// a freshly allocated buffer
+		bt := derefType(callee.Signature.Results().At(0).Type())
+		ref := x.alloc(st, bt, vc.zero(bt))
+		set(ref)
+		return true
+	case "(*bytes.Buffer).ReadFrom", "(*bytes.Buffer).Write", "(*bytes.Buffer).Reset", "(*bytes.Buffer).Truncate":
+		// only the buffer's own content changes
+		if fr.spec {
+			panic(engErr("ghost code writes to a buffer"))
+		}
+		h := x.builderHeap(callee)
+		x.setHeap(st, h, store(x.heap(st, h), args[0], vc.fresh("bufc", SString)))
+		var rs []Term
+		for i := 0; i < callee.Signature.Results().Len(); i++ {
+			rs = append(rs, x.freshOf(st, "io", callee.Signature.Results().At(i).Type()))
+		}
+		set(rs...)
+		return true
 	case "strings.HasPrefix":
 		set(app(SBool, "str.prefixof", args[1], args[0]))
 		return true
